@@ -1017,3 +1017,49 @@ Proof.
   destruct (selected_rule_facts _ _ _ _ _ _ _ Hell Hb Hsm Hnd Hm) as (H3 & H4 & H5 & H6).
   repeat (split; [first [assumption | reflexivity]|]). exact Hex.
 Qed.
+
+(* ---- stronger than [main_sound]: on the supported fragment the model of
+   Transform::transform IS the specification function, for every amount of extra fuel:
+   it returns the R7RS expansion when a rule R7RS-matches and reports an error exactly
+   when none does (so: sound, complete, terminating, independent of the fuel margin) *)
+Lemma selected_expand : forall d tr u pat tmpl se,
+  transform_try_new d = Ok tr -> supported_tr tr u = true ->
+  spec_select (tr_literals tr) (tr_ellipsis tr) (tr_rules tr) u = Some (pat, tmpl, se) ->
+  exists c, sinst (tr_ellipsis tr) tmpl se = SOk c /\
+    forall f, (cell_size tmpl * S (S (length (flat se))) <= f)%nat ->
+      expand (tr_ellipsis tr) pat (flat se) f tmpl (env_new pat) = Ok (Some c, env_new pat).
+Proof.
+  intros d tr u pat tmpl se Etr Hs Esel.
+  unfold supported_tr in Hs. apply andb_prop in Hs. destruct Hs as [Hell Hall].
+  destruct (spec_select_some _ _ _ _ _ _ _ Esel) as (pk & pd & uk & ud & Hin & Hpe & -> & Hm).
+  pose proof (proj1 (forallb_forall _ _) Hall _ Hin) as Hrs.
+  unfold rule_supported in Hrs. cbn [fst snd] in Hrs. rewrite Hpe in Hrs.
+  apply andb_prop in Hrs. destruct Hrs as [Hrs Hnd]. apply andb_prop in Hrs. destruct Hrs as [Hsm Htm].
+  pose proof (proj1 (Forall_forall _ _) (try_new_rules d tr Etr) _ Hin) as (pk' & pd' & Hb).
+  cbn [fst] in Hb.
+  pose proof (build_expr _ _ _ _ (Nat.le_refl _) Hb) as Hex. cbn [p_expr] in Hex.
+  rewrite Hpe in Hex. inversion Hex; subst pk' pd'. clear Hex.
+  destruct (selected_rule_facts _ _ _ _ _ _ _ Hell Hb Hsm Hnd Hm) as (Hvar & Hexp & Hndse & Hd1).
+  exact (expand_sound_sized (tr_ellipsis tr) pat se Hell Hvar Hexp Hndse Hd1 tmpl Htm).
+Qed.
+
+Theorem apply_supported : forall d tr u extra,
+  transform_try_new d = Ok tr -> supported_tr tr u = true ->
+  transform_apply_fuel extra tr u =
+  match spec_of_transform tr u with SpecOk c => Ok c | _ => Err E_OTHER end.
+Proof.
+  intros d tr u extra Etr Hs.
+  rewrite (first_matching_rule tr u extra Hs).
+  pose proof Hs as Hs'. unfold supported_tr in Hs'. apply andb_prop in Hs'. destruct Hs' as [Hell Hall].
+  assert (Hwf : forallb (rule_wf (tr_literals tr) (tr_ellipsis tr)) (tr_rules tr) = true).
+  { apply forallb_forall. intros r Hr. eapply rule_supported_wf.
+    apply (proj1 (forallb_forall _ _) Hall _ Hr). }
+  destruct (spec_select (tr_literals tr) (tr_ellipsis tr) (tr_rules tr) u) as [[[pat tmpl] se]|] eqn:Esel.
+  - destruct (selected_expand d tr u pat tmpl se Etr Hs Esel) as (c & Hsi & Hex).
+    rewrite Hex by (pose proof (expand_fuel_enough se tmpl); lia).
+    destruct (spec_select_some _ _ _ _ _ _ _ Esel) as (pk & pd & uk & ud & _ & _ & -> & _).
+    unfold spec_of_transform. rewrite Hwf. cbn [negb].
+    rewrite (spec_rules_select _ _ _ _ Hall), Esel, Hsi. reflexivity.
+  - unfold spec_of_transform. destruct u; try reflexivity.
+    rewrite Hwf. cbn [negb]. rewrite (spec_rules_select _ _ _ _ Hall), Esel. reflexivity.
+Qed.
